@@ -20,13 +20,17 @@ ASSUMPTIONS = [
     "join(timeout_on_close) does not expire before the flusher finishes (the scheduled join never times out)",
     "wrapped storage failures are Exceptions (a BaseException would end the flusher thread)",
     "requests are issued through set_data / add_metadata / save_recording (Recording.__setitem__ bypasses the closed "
-    "check of the AsyncRecording and is outside the modelled request alphabet)"]
+    "check of the AsyncRecording and is outside the modelled request alphabet)",
+    "data values passed to set_data are immutable atoms in the model (the in-memory recording keeps references in both "
+    "worlds; a caller mutating a value object between the request and the flush is outside the modelled domain); "
+    "metadata dicts may be changed by the caller after the call (AddMetaMut) - covered since /repo ba7c02c"]
 TRUSTED = ["cooperative scheduler of the driver (one OS thread per logical thread, exactly one running; Thread/Lock/Event "
            "of the module under test substituted as module attributes; sys.settrace line stepping)",
            "spy subclass of the real InMemoryTapeCassette / MemoryRecording as wrapped storage",
            "trace projection: flusher lock acquire/release = CLock/CSwap, first lock acquisition inside a producer call = "
            "CProduce, spy call entry on the flusher = CExec"]
-THEOREMS = ["C12_inv_init", "C12_inv_step", "C12_inv_reachable", "C12_async_refines_sync", "C12_schedule_independent",
+THEOREMS = ["C12_inv_init", "C12_inv_step", "C12_inv_reachable", "C12_async_refines_sync", "C12_argument_alias_refuted",
+            "C12_argument_alias_repaired", "C12_schedule_independent",
             "C12_single_producer", "C12_failure_does_not_block", "C12_producers_never_blocked",
             "C12_not_blocked_during_storage", "C12_progress", "C12_progress_every_step", "C12_progress_enabled",
             "C12_runner_sound"]
@@ -56,9 +60,12 @@ def op_meta(rec, keys, p, i, fail=0):
     return d
 
 
-def op_metamut(rec, keys, mkey, p, i):
-    """d = {..}; add_metadata(d); d[mkey] = value   (F12 probe stream only)"""
-    return dict(rec=rec, k="metamut", items=[[k, _val(p, i, j)] for j, k in enumerate(keys)], mkey=mkey, mval=_val(p, i, 9))
+def op_metamut(rec, keys, mkey, p, i, fail=0):
+    """d = {..}; add_metadata(d); d[mkey] = value   - the caller goes on using its dict (F12, repaired by ba7c02c)"""
+    d = dict(rec=rec, k="metamut", items=[[k, _val(p, i, j)] for j, k in enumerate(keys)], mkey=mkey, mval=_val(p, i, 9))
+    if fail:
+        d["fail"] = fail
+    return d
 
 
 def op_save(rec, fail=0):
@@ -102,9 +109,12 @@ def rand_work(rng, nprod, max_ops, nrec, pfail=0.15, after_save=0.1):
             x = rng.random()
             if x < 0.55:
                 ops.append(op_set(rec, rng.randrange(3), p, i, fail))
-            elif x < 0.75:
+            elif x < 0.67:
                 ks = rng.sample(range(3), rng.randrange(1, 3))
                 ops.append(op_meta(rec, ks, p, i, fail))
+            elif x < 0.75:
+                ks = rng.sample(range(3), rng.randrange(1, 3))
+                ops.append(op_metamut(rec, ks, rng.randrange(3), p, i, fail))
             else:
                 ops.append(op_save(rec, fail))
                 saved.add(rec)
@@ -181,7 +191,7 @@ W_TWO3 = [[op_set(0, 0, 0, 0), op_save(0)], [op_set(1, 0, 1, 0)]]               
 W_SHARE = [[op_set(0, 0, 0, 0), op_save(0)], [op_set(0, 0, 1, 0)]]                       # write racing with the save
 W_TWO4 = [[op_set(0, 0, 0, 0), op_save(0)], [op_set(1, 0, 1, 0), op_save(1)]]
 W_THREE = [[op_set(0, 1, 0, 0), op_save(0)], [op_meta(1, [0, 1], 1, 0), op_save(1)], [op_set(0, 1, 2, 0), op_set(1, 1, 2, 1)]]
-W_ALIAS1 = [[op_metamut(0, [0], 1, 0, 0), op_save(0)]]                                    # F12: dict changed after the request
+W_ALIAS1 = [[op_metamut(0, [0], 1, 0, 0), op_save(0)]]                                    # dict changed after the request (F12)
 W_ALIAS2 = [[op_set(0, 0, 0, 0), op_metamut(0, [0, 1], 1, 0, 1), op_save(0)], [op_metamut(1, [2], 0, 1, 0), op_save(1)]]
 W_RESET = [[op_set(0, 0, 0, 0), op_set(0, 0, 0, 1), op_set(0, 1, 0, 2), op_save(0)]]    # same key twice in one recording
 
@@ -205,11 +215,13 @@ def generate(rng, tier):
     for _ in range(300 if quick else 4000):
         w = rand_work(rng, rng.randrange(1, 4), 6, rng.randrange(1, 4))
         light.append(mk(w, dict(kind="tokens", tokens=rand_tokens(rng, w)), "random-tokens"))
-    # 2b. probe stream for known finding F12 (argument captured by reference): token schedules only
+    # 2b. the caller changes its dict after add_metadata(dict) returned (F12, repaired by /repo ba7c02c: must pass)
     for w, fmax, cpl in [(W_ALIAS1, 4, (0, 2)), (W_ALIAS2, 1, (0,))]:
         for k, toks in enumerate(token_schedules(w, fmax, cpl)):
             if k % (2 if quick else 1) == 0:
-                light.append(mk(w, dict(kind="tokens", tokens=toks), "probe-F12"))
+                light.append(mk(w, dict(kind="tokens", tokens=toks), "dict-changed-after-call"))
+    heavy.append(mk(W_ALIAS2, dict(kind="explore", gran="atomic", budget=1, max_runs=700 if quick else 8000), "explore-atomic"))
+    heavy.append(mk(W_ALIAS1, dict(kind="explore", gran="line", budget=1, max_runs=700 if quick else 8000), "explore-line"))
     # 3. bounded-preemption exhaustive exploration by the driver
     for w in [W_TWO3, W_SHARE, W_RESET, with_fail_at(W_TWO4, 1), with_fail_at(W_ONE3, 0), with_fail_at(W_THREE, 3)] + \
             ([] if quick else [W_THREE]):
@@ -429,9 +441,10 @@ def run_failures(case, r):
     late = r.get("twin_late")
     if late is not None and (r["saved"], r["live"]) != (tw["saved"], tw["live"]) and \
             (r["saved"], r["live"]) == (late["saved"], late["live"]):
-        # known finding: exactly the difference explained by "the dict is read when the flusher runs the operation"
+        # F12 (repaired by /repo ba7c02c; a revert shows up here): exactly the difference explained by "the dict is
+        # read when the flusher runs the operation"
         add("F12-argument-alias", "items added to a dict after add_metadata(dict) returned were stored: %s, synchronous "
-            "twin %s" % (r["saved"] or r["live"], tw["saved"] or tw["live"]))
+            "twin %s" % ((r["saved"], tw["saved"]) if r["saved"] != tw["saved"] else (r["live"], tw["live"])))
     elif r["saved"] != tw["saved"]:
         add("stored-recordings-differ", "wrapped cassette after close %s != synchronous twin %s (requests in order %s)" %
             (r["saved"], tw["saved"], r["twin_order"]))
@@ -553,7 +566,7 @@ def features(case):
     kinds = {op["k"] for ops in w for op in ops}
     f |= {"op:" + k for k in kinds}
     if "metamut" in kinds:
-        f.add("probe:F12-caller-changes-dict-after-add_metadata")
+        f.add("caller-changes-dict-after-add_metadata")
     if any(op.get("fail") for ops in w for op in ops):
         f.add("failing-storage-call")
     recs = [set(op["rec"] for op in ops) for ops in w]
@@ -579,7 +592,7 @@ def nontrivial(case):
 
 MANIFEST = dict(
     design_ref='6/C12',
-    text='Coq theorems over ALL reachable states of a producer/buffer/flusher transition system (any number of producers, any workloads of set_data/add_metadata/save with failing storage calls, any interleaving, any timer firing pattern): invariant applied++batch++buffer = enqueue order; when the flusher is done every accepted request was applied exactly once in enqueue order and the wrapped cassette and every outcome equal the synchronous run (sync_apply); failure does not block; producers blocked only inside the two-statement swap; termination within |buffer|+|batch|+8 flusher steps after close. Model tied to /repo on every run by driving the REAL AsyncRecordOnlyTapeCassette/AsyncRecording under deterministic schedules (cooperative scheduler over substituted Thread/Lock/Event, re-entrant spy cassette, sys.settrace line stepping): exhaustive token interleavings of small workloads, bounded-preemption exhaustive exploration at atomic and source-line granularity, seeded random walks; Coq replays every implementation trace (each step must be enabled) and compares applied order, outcomes, stored recordings. ast gate: every buffer access under the lock. Direct predicate on the implementation: exactly-once, per-producer and real-time order, contents == synchronous twin, no storage call on caller threads, callers never blocked by a storage call, no deadlock; thorough adds free-running real threads.',
+    text='Coq theorems over ALL reachable states of a producer/buffer/flusher transition system (any number of producers, any workloads of set_data/add_metadata/save with failing storage calls, any interleaving, any timer firing pattern): invariant applied++batch++buffer = enqueue order; when the flusher is done every accepted request was applied exactly once in enqueue order and the wrapped cassette and every outcome equal the synchronous run (sync_apply), also when callers keep changing a metadata dict after passing it (legacy defect F12 refuted with a witness, repaired by ba7c02c); failure does not block; producers blocked only inside the two-statement swap; termination within |buffer|+|batch|+8 flusher steps after close. Model tied to /repo on every run by driving the REAL AsyncRecordOnlyTapeCassette/AsyncRecording under deterministic schedules (cooperative scheduler over substituted Thread/Lock/Event, re-entrant spy cassette, sys.settrace line stepping): exhaustive token interleavings of small workloads, bounded-preemption exhaustive exploration at atomic and source-line granularity, seeded random walks; Coq replays every implementation trace (each step must be enabled) and compares applied order, outcomes, stored recordings. ast gate: every buffer access under the lock. Direct predicate on the implementation: exactly-once, per-producer and real-time order, contents == synchronous twin, no storage call on caller threads, callers never blocked by a storage call, no deadlock; thorough adds free-running real threads.',
     note='Trusted: Coq kernel + vm_compute; hand-written model; atomic-step reduction (argued, gated by the ast lock check); the cooperative scheduler and trace projection of the driver; join timeout expiry, daemon-thread death at interpreter exit and true parallel lock behaviour are runtime (partial).',
     technique='Coq proof (invariant over a step relation, refinement to a synchronous fold) + trace-replay correspondence by vm_compute + systematic schedule exploration of the real code',
 )
